@@ -725,6 +725,33 @@ def broken_cases():
 # ------------------------------------------------------------------------------------------------
 
 
+# L5: the same (configuration, peer OPEN) pair negotiated right after another session in the same process must give the
+# same result: the negotiated parameters are a function of the two OPENs, not of what the daemon negotiated before
+PRIORS = {
+    'all-on': (dict(OUR_DEFAULT), dict(PEER_DEFAULT)),
+    'all-off': (dict(OUR_DEFAULT, asn4=False, ap='off', xnh=False, rr=False, xm=False, gr=False, hold=3, fams=1),
+                dict(PEER_DEFAULT, asn4=(), ap=(0, 0, 0), xnh=0, rr='none', xm=False, gr=False, hold=3, fams=1)),
+}
+PRIOR_NAMES = sorted(PRIORS)
+
+
+def after_total() -> int:
+    return len(PRIOR_NAMES) * blocks(1)[2]
+
+
+def after_at(index: int):
+    name = PRIOR_NAMES[index % len(PRIOR_NAMES)]
+    our, p = pair_at(1, index // len(PRIOR_NAMES))
+    return name, our, peer_case(p)
+
+
+def check_after(prior: str, our: dict, pc: dict):
+    pour, pp = PRIORS[prior]
+    check_pair(pour, peer_case(pp))          # the session before: its own verdict belongs to L2
+    viols, key, nt = check_pair(our, pc)
+    return [('after-session:' + prior + ':' + sig, what + f' [negotiated right after a session with everything {prior.split("-")[1]}]') for sig, what in viols], key, nt
+
+
 def _case_of(layer, our, pc=None, name=None):
     c = dict(layer=layer, our=our)
     if pc is not None:
@@ -756,6 +783,11 @@ def _work(task):
             our, pc = seq_at(i)
             viols, key, nt = check_pair(our, pc)
             case = _case_of(layer, our, pc)
+        elif layer == 'after':
+            prior, our, pc = after_at(i)
+            viols, key, nt = check_after(prior, our, pc)
+            case = _case_of(layer, our, pc)
+            case['prior'] = prior
         else:
             our, pc, name = broken_cases()[i]
             viols, key, nt = check_broken(our, pc, name)
@@ -795,7 +827,8 @@ def run(ctx: core.Ctx) -> None:
                 'host name) through the real parser; L2: all (configuration, peer OPEN) vectors with at most %d of 15 units off default, '
                 'interacting groups (AS fields x ASN4 capability instances; families x families; add-path x add-path; hold x hold; ext-msg; '
                 'refresh; ext-nh) crossed fully inside their unit; L3: every sequence of <= 3 capabilities from a %d-letter alphabet x 4 '
-                'parameter styles x 2 configurations; L4: %d damaged parameter blocks. A case is non-trivial when the RFCs require a refusal, '
+                'parameter styles x 2 configurations; L4: %d damaged parameter blocks; L5: every vector with at most one unit off default negotiated right after '
+                'a session with everything on / everything off in the same process. A case is non-trivial when the RFCs require a refusal, '
                 'or the session is accepted with >= 1 family and >= 1 option in force (L1: when the OPEN carries >= 1 optional feature)'
                 % (config_total(), k, len(ALPHABET), len(broken_cases())))
     ctx.assumptions += [
@@ -812,9 +845,10 @@ def run(ctx: core.Ctx) -> None:
         _tasks('config', ctx.tier, k, config_total(), 240)
         + _tasks('broken', ctx.tier, k, len(broken_cases()), 24)
         + _tasks('seq', ctx.tier, k, seq_total(), 4000)
+        + _tasks('after', ctx.tier, k, after_total(), 2000)
         + _tasks('pair', ctx.tier, k, pair_total, 20000)
     )
-    ctx.coverage_extra['planned'] = {'config': config_total(), 'broken': len(broken_cases()), 'seq': seq_total(), 'pair': pair_total}
+    ctx.coverage_extra['planned'] = {'config': config_total(), 'broken': len(broken_cases()), 'seq': seq_total(), 'after': after_total(), 'pair': pair_total}
     pool = mp.Pool(min(16, os.cpu_count() or 1))
     done = 0
     try:
@@ -837,6 +871,8 @@ def replay(case):
         viols, _k, _n = check_config(case['our'])
     elif layer == 'broken':
         viols, _k, _n = check_broken(case['our'], case['peer'], case['mutation'])
+    elif layer == 'after':
+        viols, _k, _n = check_after(case['prior'], case['our'], case['peer'])
     else:
         viols, _k, _n = check_pair(case['our'], case['peer'])
     return [{'signature': s, 'what': w} for s, w in viols]
